@@ -7,10 +7,21 @@ CONSTANTS
   Frames = {}
   MaxFrames = 0
   CrcCounted = TRUE
+  PayFrames = {}
+  PayHeads = {}
+  TwiceLens = {}
+  PassThrough = FALSE
+  LenMod = 0
   Lens = {1, 2, 3, 7, 8, 9, 246, 247, 248, 249, 250, 255, 256, 257, 503, 505, 1015, 1017, 1023, 1024,
           2038, 2039, 2040, 2041, 2042, 2047, 2048, 4087, 4089, 4095, 4096, 6143, 8180, 8181, 8182, 8183, 8184}
   NRandLens = 12
   PoolSize = 12
   NRandStreams = 2000
+  PayLens = {1, 2, 6, 7, 9, 241, 242, 249, 250, 1016, 2034, 3000, 4089, 8170, 0}
+  PayOuters = 12
+  PaySeqPool = 12
+  LongKinds = 8
+  LongTotals = {30, 31, 32, 33, 34, 35, 37, 39, 40, 41}
+  MaxRep = 140000
 INVARIANT Emit
 CHECK_DEADLOCK FALSE
